@@ -220,3 +220,31 @@ func c03r9(p *model.Prog, r *report.Result) {
 	})
 	r.Check(guarded && len(set) > 0, "C03.R9", fkey(fn, "refused-pull", "sdp-not-delivered"), p.InstrPos(calls[0]), "SDP delivered only when the session was not disposed in the callback", "the SDP of a relay pull is delivered to the group although the describe callback may just have refused and disposed that pull (a publisher took the stream meanwhile): group.sdpCtx and the remuxer of the accepted input are overwritten with the refused input's description")
 }
+
+// c02r10: only video packets decide whether an RTSP subscriber's key-frame wait ends.
+func c02r10(p *model.Prog, r *report.Result) {
+	r.Rule("C02.R10", "in pkg/logic every call of rtprtcp.IsAvcBoundary / IsHevcBoundary lies behind the true edge of sdpCtx.IsVideoPayloadTypeOrigin(<the packet's payload type>): the bytes of an audio packet are not read as a NAL header (a G.711 sample 0x65 looks like an IDR slice and would release the wait for a key frame)")
+	n := 0
+	for _, fn := range lalFuncsIn(p, "pkg/logic") {
+		for _, ci := range model.AllCalls(fn) {
+			o := model.CalleeObj(ci.Common())
+			if o == nil || (o.Name() != "IsAvcBoundary" && o.Name() != "IsHevcBoundary") {
+				continue
+			}
+			n++
+			ok := model.GuardedBy(ci, func(c ssa.Value, pol bool) bool {
+				c, pol = model.StripNot(c, pol)
+				call, isC := c.(*ssa.Call)
+				if !isC || !pol {
+					return false
+				}
+				co := model.CalleeObj(call.Common())
+				return co != nil && co.Name() == "IsVideoPayloadTypeOrigin"
+			})
+			r.Check(ok, "C02.R10", fkey(fn, "boundary", "video-packets-only"), p.InstrPos(ci), "evaluated for video packets only", "the GOP-boundary test is applied to every RTP packet, audio included: an audio payload whose first byte reads as a key NAL type ends the subscriber's wait for a key frame, its first video frames are inter frames")
+		}
+	}
+	if n < 2 {
+		r.Bad("C02.R10", "floor", "", fmt.Sprintf("only %d boundary tests found in pkg/logic", n))
+	}
+}
